@@ -130,4 +130,10 @@ def skDecode (c : Nat) (eta : Int) (k l : Nat) (sk : List Nat) :
 /-- every coefficient of every polynomial lies in `[-a, b]` -/
 def allInRange (a b : Int) (v : List (List Int)) : Bool := v.all (fun w => w.all (fun e => decide (e ≥ -a) && decide (e ≤ b)))
 
+
+/-- Algorithm 26 `sigEncode(c̃, z, h)`: `σ ← c̃ ‖ BitPack(z[0], γ1 − 1, γ1) ‖ .. ‖ BitPack(z[ℓ−1], γ1 − 1, γ1) ‖ HintBitPack(h)`
+    (`c = 1 + bitlen(γ1 − 1)` bits per coefficient of `z`) -/
+def sigEncode (c : Nat) (gamma1 : Int) (omega : Nat) (cTilde : List Nat) (z h : List (List Int)) : List Nat :=
+  cTilde ++ (z.map (fun x => bitPack c gamma1 x)).flatten ++ hintBitPack omega h
+
 end Fips204.Spec
